@@ -112,6 +112,18 @@ def decStreamFrom (t : Tmpl) (r : SR) : Except Stream.Err (Data × SR) :=
 
 def decStream (t : Tmpl) (cs : List Bytes) : Except Stream.Err (Data × SR) := decStreamFrom t ⟨cs, []⟩
 
+/-- the sizes of the reads a decoder issues on a strict reader over `s`, in order (what a reader that logs its
+    calls records); the last entry is the read that failed, if one did -/
+def traceBR : Dec α → Bytes → List Nat
+  | .ret _, _ => []
+  | .fail _, _ => []
+  | .read n k, s => n :: (match Stream.brRead n s with
+      | .ok x => traceBR (k x.1) x.2
+      | .error _ => [])
+
+/-- the reads of `unpack_dap2_data(reader, dataset)` on `s` -/
+def decTrace (t : Tmpl) (s : Bytes) : List Nat := traceBR (decD (fuelFor t s) t) s
+
 /-- the decoded value, the reader state dropped -/
 def valOf (x : Except Stream.Err (α × β)) : Except Stream.Err α :=
   match x with
